@@ -21,7 +21,11 @@ impl ConditionTimer {
             timer.relative_speed()
         };
 
-        self.duration += timer.delta_secs() / scale;
+        // With zero relative speed the virtual clock doesn't advance,
+        // so there is nothing to unscale.
+        if scale != 0.0 {
+            self.duration += timer.delta_secs() / scale;
+        }
     }
 
     pub fn reset(&mut self) {
